@@ -3,6 +3,9 @@
           entry   = (file readres) | (dir) | (special) | (absent) | (link entry) | (dangling) | (denied)
           place   = (PATH entry)
           env     = (unset) | (empty) | (nouser) | (at place)
+          names   = USERPATH (CHAINPATH ...) envname        envname = (unset) | (empty) | (nouser) | (at PATH)
+          fsys    = ((PATH statres) ...) ((INO inode) ...)   statres = (ino INO) | (none) | (denied)
+                                                             inode   = (reg readres) | (dir) | (special)
           item    = (rule FAMILY DECISION PATTERN optMESSAGE EXACT) | (alias K V) | (default V) | (log P) | (log_full)
    oracle: (line_item LINE) -> () | (item)      answered by the real parse_config on that one line *)
 From DippyV Require Import Base.Str Base.Verdict Base.Sx Model.Layers Entry.Common.
@@ -34,6 +37,21 @@ Definition env_of_sx (x : sx) : envl :=
   else if tag_is x "nouser" then EnvNoUser
   else if tag_is x "empty" then EnvEmpty
   else EnvUnset.
+
+(* filesystem with identity: names -> inode, inode -> content *)
+Definition statres_of_sx (x : sx) : statres :=
+  if tag_is x "ino" then SIno (sx_str (sx_nth 1 x)) else if tag_is x "denied" then SDenied else SNone.
+Definition inode_of_sx (x : sx) : inode :=
+  if tag_is x "reg" then IReg (readres_of_sx (sx_nth 1 x)) else if tag_is x "dir" then IDirN else ISpecialN.
+Definition fsys_of_sx (stats inodes : sx) : fsys :=
+  mkFs (map (fun x => (sx_str (sx_nth 0 x), statres_of_sx (sx_nth 1 x))) (sx_list stats))
+       (map (fun x => (sx_str (sx_nth 0 x), inode_of_sx (sx_nth 1 x))) (sx_list inodes)).
+Definition envname_of_sx (x : sx) : envname :=
+  if tag_is x "at" then NAt (sx_str (sx_nth 1 x))
+  else if tag_is x "nouser" then NNoUser
+  else if tag_is x "empty" then NEmpty
+  else NUnset.
+Definition names_of_sx (u c e : sx) : names := mkNames (sx_str u) (sx_strs c) (envname_of_sx e).
 
 Definition family_of_sx (x : sx) : family :=
   let s := sx_str x in
@@ -75,6 +93,12 @@ Section Orc.
       Some (sx_of_res (sx_opt (fun pr => A (pl_path (fst pr)))) (find_project (map place_of_sx (sx_list (a 0%nat)))))
     else if is_cmd cmd "effective" then
       Some (sx_of_res (fun t => A (cat3 t)) (effective (layout_of_args args)))
+    else if is_cmd cmd "load_config_fs" then      (* USER CHAIN ENV STATS INODES *)
+      Some (sx_of_res sx_of_config
+              (load_config_fs the_parse (fsys_of_sx (a 3%nat) (a 4%nat)) (names_of_sx (a 0%nat) (a 1%nat) (a 2%nat))))
+    else if is_cmd cmd "effective_fs" then
+      Some (sx_of_res (fun t => A (cat3 t))
+              (effective_fs (fsys_of_sx (a 3%nat) (a 4%nat)) (names_of_sx (a 0%nat) (a 1%nat) (a 2%nat))))
     else if is_cmd cmd "parse_lines" then
       Some (sx_of_config (the_parse (sx_str (a 0%nat))))
     else if is_cmd cmd "merge_parsed" then      (* _merge_configs(parse_config(a), parse_config(b)) *)
